@@ -284,9 +284,18 @@ func RunUnits(p *Prog) *Units {
 					}
 					if mc, ok := a.(*ssa.MakeClosure); ok {
 						cf := mc.Fn.(*ssa.Function)
-						for j, k := range ks {
-							if j < len(cf.Params) {
-								u.accSet(cf.Params[j], k)
+						if m := boundTarget(cf); m != nil {
+							cf = originOf(m)
+							for j, k := range ks {
+								if par := cbParam(cf, j); par != nil {
+									u.accSet(par, k)
+								}
+							}
+						} else {
+							for j, k := range ks {
+								if j < len(cf.Params) {
+									u.accSet(cf.Params[j], k)
+								}
 							}
 						}
 					}
